@@ -71,7 +71,15 @@ class HTTP11Connection(ConnectionInterface):
             )
 
         with self._state_lock:
-            if self._state in (HTTPConnectionState.NEW, HTTPConnectionState.IDLE):
+            # A connection whose keep-alive has expired since it was assigned to
+            # this request may already be being closed by the pool.
+            keepalive_expired = (
+                self._expire_at is not None and time.monotonic() > self._expire_at
+            )
+            if (
+                self._state in (HTTPConnectionState.NEW, HTTPConnectionState.IDLE)
+                and not keepalive_expired
+            ):
                 self._request_count += 1
                 self._state = HTTPConnectionState.ACTIVE
                 self._expire_at = None
